@@ -27,7 +27,7 @@ REAL_VS_STUB = {"real": ["gameplay.*", "run.best_states.get_best_exploitability"
                 "seams": ["chunk->worker scheduler", "process images", "gameplay.time (simulated clock)"]}
 ASSUMPTIONS = ["starting knowledge contains the minimal information", "n <= 4 (all subsets up to k)",
                "SimPool models process pools at task granularity; worker death is not injected"]
-PROBES = ["chunk_with_2plus_tasks", "worker_ran_2plus_chunks", "more_workers_than_chunks",
+PROBES = ["one_game_object_reused_across_searches", "search_retried_after_interrupt", "best_states_on_a_stepped_environment", "chunk_with_2plus_tasks", "worker_ran_2plus_chunks", "more_workers_than_chunks",
           "starting_knowledge_beyond_minimal", "best_states", "meta_game", "sampled_several_games",
           "calibrated_against_real_pool", "n4"]
 TIERS = {
@@ -137,14 +137,27 @@ def _start_game(n, comp_name, K0, hidden):
 def _sequences(sim, gameplay, n, comp_name, gap, K0, unknown, k, hidden, configs, ctx, cache, thorough) -> None:
     full = games.full_game(hidden, n)
     first = None
+    # one caller-owned game object serves every search of the run (the search must leave it as it found it)
+    shared = _start_game(n, comp_name, K0, hidden) if sim.flip(2, 3, "reuse-one-game-object") else None
+    if shared is not None:
+        sim.probe("one_game_object_reused_across_searches")
     for p, image in configs:
+        game = shared if shared is not None else _start_game(n, comp_name, K0, hidden)
+        if shared is not None and sim.flip(1, 4, "earlier-search-interrupted"):
+            # a search on this object was cancelled half-way (Ctrl-C, error in the gap function); the caller retries
+            with sim.guard("C11.search_raised"):
+                with simpool.installed(sim, image):
+                    if seams.run_torn(lambda: list(gameplay.get_exploitabilities_of_action_sequences(
+                            game, full, gap, max_size=k, processes=p)), 1 + sim.choose(4000, "tear-at")):
+                        sim.fault("search_interrupted", p)
+                        sim.probe("search_retried_after_interrupt")
         sim.op("sequences", p, image)
         sim.mutations += 1
-        c = {**ctx, "processes": p, "image_model": image}
+        c = {**ctx, "processes": p, "image_model": image, "game_object_reused": shared is not None}
         with sim.guard("C11.search_raised"):
             with simpool.installed(sim, image):
                 res = list(gameplay.get_exploitabilities_of_action_sequences(
-                    _start_game(n, comp_name, K0, hidden), full, gap, max_size=k, processes=p))
+                    game, full, gap, max_size=k, processes=p))
         vals = check_result(sim, res, n, comp_name, gap, K0, unknown, k, hidden, c, cache)
         order = [tuple(sorted(x.id for x in seq)) for seq, _ in res]
         if first is None:
@@ -200,7 +213,14 @@ def _best_states(sim, n, comp_name, gap, cls, explorable, extras, k, values, con
     sim.probe("best_states")
     samples = len(values)
     first = None
-    K0 = games.minimal_ids(n) + list(extras)
+    stepped: list[int] = []
+    if len(explorable) > 2 and sim.flip(1, 3, "env-stepped-before-search"):
+        idx = sim.shuffled(list(range(len(explorable))), "stepped-actions")[:1 + sim.choose(min(3, len(explorable) - 2), "n-stepped")]
+        stepped = sorted(idx)
+        sim.probe("best_states_on_a_stepped_environment")
+    K0 = games.minimal_ids(n) + list(extras) + [explorable[a] for a in stepped]
+    explorable = [e for i, e in enumerate(explorable) if i not in stepped]
+    k = min(k, len(explorable))
     comp = games.computer(comp_name)
     for p, image in configs:
         sim.op("best_states", p, image, samples)
@@ -209,6 +229,8 @@ def _best_states(sim, n, comp_name, gap, cls, explorable, extras, k, values, con
         src = em.ListSource(values, n)
         with sim.guard("C11.search_raised"):
             env = em.make_env(n, comp_name, src, gap, None, initial_extra=extras)
+            for a in stepped:  # the environment has been played before the search: its knowledge is the start
+                env.step(a)
             drawn_before = src.drawn
             with simpool.installed(sim, image):
                 best, best_actions = get_best_exploitability(env, k, samples, gap, processes=p)
